@@ -170,6 +170,11 @@ FINISH = "all_goals first | rfl | ring | (norm_num; done) | (norm_num; ring)"
 def c19_specs():
     h0 = "have h0' : feq (laplaceScale e d s) 0 = false := feq_ne h0"
     return [
+        # the scale the SAMPLER computes (Laplace.randomise), pinned here too: `laplaceVariance` below then says that
+        # variance() is 2 * (that very scale)^2 — both re-read from the current AST and proved against one hand model
+        dict(name="laplaceSamplerScale", file=LAP, func="Laplace.randomise", pick=dict(assign_target="scale"), env=ENV_EDS,
+             binders="(e d s : ℝ)", args="e d s", hand="laplaceScale e d s",
+             tactic="simp only [laplaceScale, transc_log]"),
         dict(name="laplaceVariance", file=LAP, func="Laplace.variance", pick=dict(return_index=0), env=ENV_EDS,
              binders="(e d s : ℝ)", args="e d s", hand="laplaceVariance e d s",
              tactic="simp only [laplaceVariance, Cont.sq, transc_log, transc_pow, Real.rpow_two]\n" + FINISH),
